@@ -530,6 +530,9 @@ func knownSanitizeText(args []string) string {
 			return ""
 		}
 	}
+	if string([]rune(a.out)) == string([]rune(a.expected)) {
+		return ""
+	}
 	if len(a.passwords) == 0 || a.leakedFragment() == "" {
 		return "C15-redacts-outside-literal"
 	}
